@@ -1,0 +1,71 @@
+//! Verification taps for property C27 (compiled only with `--cfg libp2p_verif`).
+//!
+//! Observation only: a thread-local log of
+//! * every `RpcOut::Publish` handed to `Behaviour::send_message` (recipient, message id) — own
+//!   publishes, mesh forwards and IWANT answers alike —, recorded *before* the push into the
+//!   handler queue, and
+//! * every message entering `Behaviour::handle_received_message` (propagation source, id).
+//!
+//! The log is off unless the harness calls [`enable`]; nothing here changes behaviour state.
+
+use std::cell::RefCell;
+
+use libp2p_identity::PeerId;
+
+use crate::types::{MessageId, RpcOut};
+
+/// One observed step.
+#[derive(Debug, Clone, PartialEq, Eq)]
+pub enum Tap {
+    /// `send_message(to, RpcOut::Publish{ message_id: id, .. })`.
+    Send { to: PeerId, id: MessageId },
+    /// `handle_received_message(raw, from)` computed message id `id`.
+    Recv { from: PeerId, id: MessageId },
+}
+
+thread_local! {
+    static LOG: RefCell<Option<Vec<Tap>>> = const { RefCell::new(None) };
+}
+
+/// Start recording on this thread (clears the log).
+pub fn enable() {
+    LOG.with(|l| *l.borrow_mut() = Some(Vec::new()));
+}
+
+/// Stop recording on this thread.
+pub fn disable() {
+    LOG.with(|l| *l.borrow_mut() = None);
+}
+
+/// Take everything recorded since the last call.
+pub fn drain() -> Vec<Tap> {
+    LOG.with(|l| match l.borrow_mut().as_mut() {
+        Some(v) => std::mem::take(v),
+        None => Vec::new(),
+    })
+}
+
+pub(crate) fn tap_send(to: &PeerId, rpc: &RpcOut) {
+    let RpcOut::Publish { message_id: id, .. } = rpc else {
+        return;
+    };
+    LOG.with(|l| {
+        if let Some(v) = l.borrow_mut().as_mut() {
+            v.push(Tap::Send {
+                to: *to,
+                id: id.clone(),
+            });
+        }
+    });
+}
+
+pub(crate) fn tap_recv(from: &PeerId, id: &MessageId) {
+    LOG.with(|l| {
+        if let Some(v) = l.borrow_mut().as_mut() {
+            v.push(Tap::Recv {
+                from: *from,
+                id: id.clone(),
+            });
+        }
+    });
+}
